@@ -1,8 +1,12 @@
-pub mod c17;
-
-pub fn dispatch(file: &str, name: &str, src: &mut crate::ksrc::ReplaySrc) -> bool {
-    match file {
-        "c17" => c17::dispatch(name, src),
-        _ => false,
-    }
+macro_rules! files {
+    ($($f:ident),* $(,)?) => {
+        $(pub mod $f;)*
+        pub fn dispatch(file: &str, name: &str, src: &mut crate::ksrc::ReplaySrc) -> bool {
+            match file {
+                $(stringify!($f) => $f::dispatch(name, src),)*
+                _ => false,
+            }
+        }
+    };
 }
+files!(c17, ans, kk);
